@@ -64,7 +64,7 @@ func VerifHarness_Misc_Deliver() {
 	case 2, 3:
 		// votes of candidate P (owner B) for one of three concrete heights
 		h := []uint64{u.height - 1, u.height, u.height + 10}[verifChoice("voteHeight", 3)]
-		pre := verifConfig("preVoted") == 1
+		pre := verifConfig("preVoted") >= 1
 		if kind == 2 {
 			if pre {
 				st.Halts.AddHaltBlock(h, P)
@@ -75,6 +75,10 @@ func VerifHarness_Misc_Deliver() {
 				st.Updates.AddVote(h, P, "v340")
 			}
 			tx = verifTx(nonce0+1, verifGasPrice(), 0, TypeVoteUpdate, VoteUpdateDataV230{Version: "v340", PubKey: P, Height: h})
+		}
+		if verifConfig("preVoted") == 2 {
+			u.reopen()
+			st = u.st
 		}
 		resp, _, _ := verifDeliverChecked(u, tx, verifSignBy(tx, signer), sender, nonce0)
 		if resp.Code == 0 {
